@@ -30,8 +30,17 @@ func (in *Interp) syncOf(recv Value) *syncObj {
 			_ = u
 			abortf("sync operation on guarded union receiver at %s", in.where())
 		}
+		if !ok {
+			abortf("sync operation on non-pointer receiver %s at %s", in.show(recv), in.where())
+		}
+		// nil receiver under the current guard: a violation if the guard is feasible; afterwards the guard is
+		// assumed false, so only this block is dead - the path itself goes on (ending it here would silently
+		// skip every assertion behind the merge point).
 		in.rtCheck(in.ts.True, "nil pointer dereference (sync primitive)")
-		panic(pathEnd{"nil sync receiver"})
+		if in.cur != nil && in.cur.frame != nil {
+			in.cur.frame.cur = in.ts.False
+		}
+		return &syncObj{}
 	}
 	if in.syncState == nil {
 		in.syncState = map[*Value]*syncObj{}
